@@ -22,7 +22,9 @@ UNPROVED = [
 RULE = ("entry point x dtype (float64/float32/int64) x layout (C, Fortran, strided view) x bounds form (scalars, float "
         "arrays incl. zero-width features, int arrays) x dataset; every caller-owned array (data, labels, weights, "
         "bounds arrays, base of a view) is snapshotted bitwise before and compared after the call; non-trivial = the "
-        "call returned normally; distinct by (entry, dtype, layout, bounds form, shape)")
+        "call returned normally; distinct by (entry, dtype, layout, bounds form, shape); container kinds of the data "
+        "argument (ndarray subclass view, np.memmap, read-only) x entry x dtype with out-of-bounds values; label vectors "
+        "(int64/int32/float64) containing labels outside an explicit `classes`")
 
 GEN_PATH = os.path.join(leanio.LEAN, "DPL", "Generated", "C20IR.lean")
 
@@ -467,7 +469,170 @@ def lifecycle(ctx):
                 lifecycle_case(ctx, r.fork(f), cls, dtype, seed)
 
 
+# ------------------------------------------------------------------------ container kinds / labels outside `classes`
+
+class TaggedArray(np.ndarray):
+    """a do-nothing ndarray subclass (stands for np.memmap, np.recarray, unit-carrying arrays, ...)"""
+
+
+CONTAINERS = ("subclass-view", "memmap", "read-only", "read-only-subclass")
+
+
+def in_container(kind, A, tmpdir, tag):
+    """a caller's array holding the values of A in the container `kind` (own memory, C order)"""
+    A = np.ascontiguousarray(A)
+    if kind == "subclass-view":
+        return A.copy().view(TaggedArray)
+    if kind == "memmap":
+        mm = np.memmap(os.path.join(tmpdir, f"{tag}.dat"), dtype=A.dtype, mode="w+", shape=A.shape)
+        mm[...] = A
+        return mm
+    X = A.copy() if kind == "read-only" else A.copy().view(TaggedArray)
+    X.setflags(write=False)
+    return X
+
+
+def container_case(ctx, r, ent, kind, dtype, seed, tmpdir):
+    n = r.randint(8, 14) if ent[1] != "model" else r.randint(12, 20)
+    d = r.randint(2, 3)
+    Xv = make_data(r, n, d, dtype)
+    Xv[0, 0], Xv[1, d - 1] = Xv.dtype.type(2.5), Xv.dtype.type(-1.5)    # certainly outside every bounds form used
+    forms = list(bounds_forms(r, d))
+    bname, bounds, owned_b = forms[r.choice([0, 1, 3])]
+    X = in_container(kind, Xv, tmpdir, "X")
+    ok, changed, outs = run_entry(ctx, r, ent, X, kind, bname, bounds, owned_b, seed)
+    ctx.case(("container", ent[0], kind, dtype, bname) if ok else None)
+    data = {"kind": "container", "entry": ent[0], "container": kind, "dtype": dtype, "bounds_form": bname,
+            "n": n, "d": d, "seed": seed, "X": Xv.tolist()}
+    for arg in changed:
+        now = np.array(X, copy=True, subok=False) if arg == "X" else None
+        where = ""
+        if now is not None and now.shape == Xv.shape:
+            idx = np.argwhere(now != Xv)
+            if len(idx):
+                i, j = (int(t) for t in idx[0])
+                where = f"; e.g. X[{i},{j}] was {Xv[i, j].item()!r}, now {now[i, j].item()!r} ({len(idx)} entries changed)"
+        ctx.violation(f"C20:{ent[0].split('[')[0]}:mutates:{arg.split('[')[0]}:{kind}",
+                      f"{ent[0]} modified caller-owned `{arg}` held in a {kind} container (dtype {dtype}, bounds {bname} "
+                      f"{[np.asarray(b).tolist() for b in bounds]}, shape {(n, d)}, random_state={seed}){where}", data)
+    # fit_transform(X) against fit(X).transform(X), each on a fresh container holding the ORIGINAL values
+    if ent[1] == "model" and ent[2].__name__ in ("StandardScaler", "PCA") and kind in ("subclass-view", "memmap"):
+        cls = ent[2].__name__
+        kw = dict(epsilon=2.0, random_state=seed, bounds=bounds)
+        if cls == "PCA":
+            kw.update(data_norm=3.0, n_components=min(2, d), centered=False)
+        try:
+            with warnings.catch_warnings():
+                warnings.simplefilter("ignore")
+                X1 = in_container(kind, Xv, tmpdir, "X1")
+                a = np.asarray(ent[2](**kw).fit_transform(X1))
+                X2 = in_container(kind, Xv, tmpdir, "X2")
+                est = ent[2](**kw).fit(X2)
+                b_ = np.asarray(est.transform(in_container(kind, Xv, tmpdir, "X3")))   # the data as the caller holds them
+                b2 = np.asarray(est.transform(X2))
+        except Exception as e:  # noqa - refusal
+            ctx.count("container_raise:" + type(e).__name__)
+            return
+        for other, what in ((b_, "fit(X).transform(X0), X0 a second holder of the same values"),
+                            (b2, "fit(X).transform(X)")):
+            if not (a.shape == other.shape and np.array_equal(a, other, equal_nan=True)):
+                ctx.violation(f"C20:{ent[0]}:fit_transform-differs:{kind}",
+                              f"{ent[0]}(random_state={seed}, bounds {bname}): fit_transform(X) != {what} for X in a {kind} "
+                              f"container (dtype {dtype}, shape {(n, d)}; max abs diff "
+                              f"{float(np.max(np.abs(a - other))) if a.shape == other.shape else 'shape'})", data)
+                break
+        else:
+            ctx.trace_ok()
+
+
+def containers(ctx, only=None):
+    import shutil
+    import tempfile
+    r = ctx.fork("c20-containers")
+    tmpdir = tempfile.mkdtemp(prefix="c20_")
+    try:
+        for ent in entries():
+            for kind in CONTAINERS:
+                for dtype in ("float64", "float32", "int64"):
+                    for rep in range(ctx.budget(1, 3)):
+                        rr = r.fork((ent[0], kind, dtype, rep))
+                        if only and only != ent[0]:
+                            continue
+                        container_case(ctx, rr, ent, kind, dtype, rr.randint(0, 10 ** 6), tmpdir)
+    finally:
+        shutil.rmtree(tmpdir, ignore_errors=True)
+
+
+LABEL_MODELS = ("RandomForestClassifier", "DecisionTreeClassifier", "GaussianNB.partial_fit")
+
+
+def labels_case(ctx, r, model, ydtype, seed):
+    """labels that are NOT among the `classes` the caller declared: whatever the estimator does with them (refuse,
+    ignore, miscount), the caller's label vector must stay byte-identical"""
+    M = dp.models
+    n, d = r.randint(12, 24), r.randint(2, 3)
+    X = make_data(r, n, d, "float64")
+    classes_l = r.choice([[0, 1, 2], [1, 2, 3], [0, 2], [1, 2]])
+    pool = classes_l + [c for c in (-1, 0, 1, 3, 4, 7) if c not in classes_l]
+    yl = [r.choice(pool) for _ in range(n)]
+    yl[r.randint(0, n - 1)] = r.choice([c for c in (-1, 4, 7) if c not in classes_l])      # at least one unknown label
+    y = np.ascontiguousarray(np.array(yl, dtype=ydtype))
+    as_array = r.chance(0.5)
+    classes = np.array(classes_l, dtype=r.choice([np.int64, np.int32, np.float64])) if as_array else list(classes_l)
+    owned = {"X": X, "y": y}
+    if as_array:
+        owned["classes"] = classes
+    before = {k: snap(v) for k, v in owned.items()}
+    ok = True
+    try:
+        with warnings.catch_warnings():
+            warnings.simplefilter("ignore")
+            if model == "GaussianNB.partial_fit":
+                est = M.GaussianNB(epsilon=2.0, bounds=(0.0, 1.0), random_state=seed)
+                est.partial_fit(X, y, classes=classes)
+            else:
+                kw = dict(epsilon=2.0, bounds=(0.0, 1.0), classes=classes, random_state=seed)
+                if model == "RandomForestClassifier":
+                    kw["n_estimators"] = 3
+                est = getattr(M, model)(**kw)
+                est.fit(X, y)
+            try:
+                est.predict(X)
+            except Exception:  # noqa
+                pass
+    except Exception as e:  # a refusal is fine; a mutation before it is still a mutation
+        ok = False
+        ctx.count("labels_raise:" + type(e).__name__)
+    ctx.case(("labels", model, ydtype, as_array, tuple(classes_l)) if ok else None)
+    data = {"kind": "labels", "model": model, "y_dtype": ydtype, "seed": seed, "classes": classes_l, "y": yl,
+            "X": X.tolist()}
+    for k, v in owned.items():
+        if snap(v) != before[k]:
+            extra = ""
+            if k == "y":
+                idx = [i for i in range(n) if v[i] != yl[i]]
+                extra = (f"; e.g. y[{idx[0]}] was {yl[idx[0]]}, now {v[idx[0]].item()} ({len(idx)} labels rewritten)"
+                         if idx else "")
+            ctx.violation(f"C20:models.{model}:mutates:{k}:labels-outside-classes",
+                          f"models.{model}(classes={classes_l}{' as ' + classes.dtype.str + ' array' if as_array else ''}, "
+                          f"bounds=(0,1), random_state={seed}) modified caller-owned `{k}`: y = {yl} ({ydtype}, contiguous) "
+                          f"contains labels not in classes{extra}", data)
+
+
+def labels(ctx, only=None):
+    r = ctx.fork("c20-labels")
+    for model in LABEL_MODELS:
+        for ydtype in ("int64", "int32", "float64"):
+            for rep in range(ctx.budget(3, 12)):
+                rr = r.fork((model, ydtype, rep))
+                if only and only != model:
+                    continue
+                labels_case(ctx, rr, model, ydtype, rr.randint(0, 10 ** 6))
+
+
 def check(ctx):
+    labels(ctx)
+    containers(ctx)
     lifecycle(ctx)
     r = ctx.fork("c20")
     ents = entries()
@@ -488,6 +653,14 @@ def replay(ctx, data):
     if d.get("kind") == "lifecycle":
         n0 = len(ctx.violations)
         lifecycle(ctx)
+        return len(ctx.violations) > n0
+    if d.get("kind") == "container":
+        n0 = len(ctx.violations)
+        containers(ctx, only=d["entry"])
+        return len(ctx.violations) > n0
+    if d.get("kind") == "labels":
+        n0 = len(ctx.violations)
+        labels(ctx, only=d["model"])
         return len(ctx.violations) > n0
     from ..gen import SplitMix64
     ents = {e[0]: e for e in entries()}
